@@ -143,6 +143,19 @@ fn check_pattern(case: &(PatSpec, Option<usize>, bool), run: &mut Run) -> Result
     if leaf.priority != expected {
         return Err(format!("pattern {} has priority {}, the rule gives {}", leaf.display, leaf.priority, expected));
     }
+    // the rule does not depend on the mode: str-literal patterns also in a str-mode definition (when acceptable there)
+    if !byte_lit {
+        let def_str = DefSpec { utf8: true, ..def };
+        let ds = derive_def(&def_str);
+        if let (None, Some(gs)) = (&ds.panic, &ds.graph) {
+            if gs.leaves.len() == def_str.n_leaves() && ds.errors.is_empty() {
+                run.count("also_checked_in_str_mode", 1);
+                if gs.leaves[0].priority != expected {
+                    return Err(format!("in a str-mode definition pattern {} has priority {}, the rule gives {}", gs.leaves[0].display, gs.leaves[0].priority, expected));
+                }
+            }
+        }
+    }
     Ok(())
 }
 
